@@ -88,6 +88,22 @@ CLAIMED["C04"] = dict(
     technique="Lean 4 invariant proof over operation programs (group action) + exact state correspondence",
     ref="DESIGN.md §5 C04")
 
+CLAIMED["C01"] = dict(
+    text="Lean 4 proof over an arbitrary commutative (star) ring, every dimension and number of bath components: the Redfield/Lindblad "
+         "assembly (_loopit) and the time-dependent element formula are trace free for ANY operators K, Kd, L, Ld, and commute with "
+         "Hermitian conjugation when K is real, Kd = K^T, Ld = L^dagger (plus K symmetric for the time-dependent formula); sums over "
+         "components keep both; both secular masks (re-extracted from source on every run) keep R[a,a,b,b] and R[a,b,a,b], zero "
+         "everything else and preserve both identities; the Foerster tensor (rates -> updateStructure -> pure dephasing h_a + conj h_b) "
+         "and the Foerster part of the combined tensor are trace free and (real rates) Hermiticity preserving. Tied to the code by exact "
+         "element-wise comparison of the real kernels (_convert_operators_2_tensor of both Redfield classes, secularize incl. repeated "
+         "calls on one object, updateStructure, add_dephasing, transform) with the rational model on Gaussian-integer operators, and by "
+         "evaluating both identities on get_RelaxationTensor output for every theory x option in site and exciton basis. "
+         "Partial: invariance under RelaxationTensor.transform (real orthogonal S) is observed, not proved.",
+    note="Lean kernel + standard axioms; mask extractor + harness (ours); hand model validated on generated inputs; eigh and spline "
+         "quadrature only supply operators (their accuracy does not enter the identities).",
+    technique="Lean 4 algebraic identities over commutative star rings + extracted masks + exact kernel correspondence + API oracle",
+    ref="DESIGN.md §5 C01")
+
 NOT_APPLICABLE = {}
 
 
